@@ -669,6 +669,9 @@ type simCluster struct {
 	logSeq int
 	// the next keyed command that is executed loses its reply: the node closes the connection instead of answering
 	dropNextExec bool
+	// nodes the others merely suspect (they were slow to answer a ping): listed with the flag "fail?" by every other node,
+	// up and serving all the same
+	suspect map[int]bool
 }
 
 type simExtraMaster struct {
@@ -864,6 +867,8 @@ func (cl *simCluster) clusterNodesText(me int) string {
 		}
 		if !nd.up {
 			flags += ",fail"
+		} else if cl.suspect[nd.idx] && nd.idx != me {
+			flags += ",fail?"
 		}
 		port := nd.addr[strings.LastIndex(nd.addr, ":")+1:]
 		fmt.Fprintf(&b, "%s %s@1%s %s %s 0 0 %d connected", nd.id, nd.addr, port, flags, masterID, nd.idx)
